@@ -481,6 +481,8 @@ func main() {
 	N := ev.Pick(r, 5, 6)
 	rl := seqmc.Explore(r, seqmc.Config{Name: "list", New: func() seqmc.Sys { return newLH(H) }})
 	rr := seqmc.Explore(r, seqmc.Config{Name: "ring", New: func() seqmc.Sys { return &rh{N: N} }})
+	famCalls := bigLists(r)
+	r.Set("large_size_family_calls", famCalls)
 	if !rl.Exhaustive || !rr.Exhaustive {
 		r.MarkCapped()
 	}
@@ -492,4 +494,142 @@ func main() {
 	r.Set("ring", fmt.Sprintf("cells=%d states=%d transitions=%d depth=%d fixpoint=%v", N, rr.States, rr.Transitions, rr.MaxDepth, rr.Exhaustive))
 	r.Set("rule", "explicit-state BFS to fixpoint, the fork and the standard library driven in lock-step through parallel handle tables. Lists: a zero-value list and a New() list, a table of H element handles (live in either list, removed, zombie after Init; removed handles can be forgotten so histories are unbounded), every operation over every handle / handle pair / list pair incl. self; compared after every call: returned handle, Len, Front/Back, forward and backward traversal with identities, Next/Prev/Value of every handle. Rings: up to N cells from NewRing(0..3) and zero-value Rings, the nil ring; Next, Prev, Move(-3..3), Link for every pair incl. r==s and nil, Unlink(-1..N+1), Len, Do")
 	r.Finish()
+}
+
+// bigLists: lists of up to 120 elements and rings of up to 64 cells driven through scripted
+// operation patterns, compared with the standard library after every call.
+func bigLists(r *ev.Run) int {
+	calls := 0
+	fail := func(sig, format string, a ...any) {
+		r.Report(ev.Violation{Sig: "family|" + sig, Msg: fmt.Sprintf(format, a...), Replay: map[string]any{"family": "big-lists"}})
+	}
+	for _, n := range []int{17, 33, 64, 120} {
+		l, rl := lists.New[int](), clist.New()
+		var he []*lists.Element[int]
+		var hr []*clist.Element
+		same := func(what string) bool {
+			calls++
+			if l.Len() != rl.Len() {
+				fail("list", "%s (n=%d): Len %d vs %d", what, n, l.Len(), rl.Len())
+				return false
+			}
+			e, re := l.Front(), rl.Front()
+			for i := 0; re != nil; i++ {
+				if e == nil || e.Value != re.Value.(int) {
+					fail("list", "%s (n=%d): forward traversal differs at position %d", what, n, i)
+					return false
+				}
+				e, re = e.Next(), re.Next()
+			}
+			if e != nil {
+				fail("list", "%s (n=%d): list longer than container/list's", what, n)
+				return false
+			}
+			e, re = l.Back(), rl.Back()
+			for i := 0; re != nil; i++ {
+				if e == nil || e.Value != re.Value.(int) {
+					fail("list", "%s (n=%d): backward traversal differs at position %d", what, n, i)
+					return false
+				}
+				e, re = e.Prev(), re.Prev()
+			}
+			return e == nil
+		}
+		for i := 0; i < n; i++ {
+			switch i % 4 {
+			case 0:
+				he, hr = append(he, l.PushBack(i)), append(hr, rl.PushBack(i))
+			case 1:
+				he, hr = append(he, l.PushFront(i)), append(hr, rl.PushFront(i))
+			case 2:
+				k := (i * 7) % len(he)
+				he, hr = append(he, l.InsertBefore(i, he[k])), append(hr, rl.InsertBefore(i, hr[k]))
+			default:
+				k := (i * 5) % len(he)
+				he, hr = append(he, l.InsertAfter(i, he[k])), append(hr, rl.InsertAfter(i, hr[k]))
+			}
+		}
+		ok := same("after building")
+		for i := 0; ok && i < 3*n; i++ {
+			a, b := (i*13)%len(he), (i*29+7)%len(he)
+			switch i % 6 {
+			case 0:
+				l.MoveToFront(he[a])
+				rl.MoveToFront(hr[a])
+			case 1:
+				l.MoveToBack(he[a])
+				rl.MoveToBack(hr[a])
+			case 2:
+				l.MoveBefore(he[a], he[b])
+				rl.MoveBefore(hr[a], hr[b])
+			case 3:
+				l.MoveAfter(he[a], he[b])
+				rl.MoveAfter(hr[a], hr[b])
+			case 4:
+				if l.Remove(he[a]) != rl.Remove(hr[a]).(int) {
+					fail("list", "Remove result differs (n=%d)", n)
+				}
+			default:
+				x, y := l.InsertBefore(1000+i, he[a]), rl.InsertBefore(1000+i, hr[a])
+				if (x == nil) != (y == nil) {
+					fail("list", "InsertBefore on a possibly removed mark: nil-ness differs (n=%d)", n)
+				} else if x != nil {
+					he, hr = append(he, x), append(hr, y)
+				}
+			}
+			ok = same(fmt.Sprintf("after scripted op %d", i))
+		}
+		if ok {
+			l.PushBackList(l)
+			rl.PushBackList(rl)
+			ok = same("after PushBackList(self)")
+			o, ro := lists.New[int](), clist.New()
+			o.PushFrontList(l)
+			ro.PushFrontList(rl)
+			l.PushFrontList(o)
+			rl.PushFrontList(ro)
+			same("after PushFrontList(copy)")
+		}
+	}
+	for _, n := range []int{8, 13, 32, 64} {
+		a, ra := lists.NewRing[int](n), cring.New(n)
+		for i, p, rp := 0, a, ra; i < n; i, p, rp = i+1, p.Next(), rp.Next() {
+			p.Value, rp.Value = i, i
+		}
+		vals := func(x *lists.Ring[int]) string {
+			var v []int
+			x.Do(func(i int) { v = append(v, i) })
+			return fmt.Sprint(v)
+		}
+		rvals := func(x *cring.Ring) string {
+			var v []int
+			x.Do(func(i any) { v = append(v, i.(int)) })
+			return fmt.Sprint(v)
+		}
+		for k := -2*n - 1; k <= 2*n+1; k++ {
+			calls++
+			if a.Move(k).Value != ra.Move(k).Value.(int) {
+				fail("ring", "Move(%d) on a %d-cell ring differs", k, n)
+				break
+			}
+		}
+		for step := 0; step < 12; step++ {
+			k := (step*5 + 1) % (n + 3)
+			x, rx := a.Move(step).Unlink(k), ra.Move(step).Unlink(k)
+			calls++
+			if x.Len() != rx.Len() || a.Len() != ra.Len() || vals(a) != rvals(ra) || (x != nil && vals(x) != rvals(rx)) {
+				fail("ring", "Unlink(%d) from a ring of %d cells (step %d): rings differ from container/ring", k, n, step)
+				break
+			}
+			if x != nil {
+				y, ry := a.Move(2).Link(x), ra.Move(2).Link(rx)
+				calls++
+				if a.Len() != ra.Len() || vals(a) != rvals(ra) || y.Value != ry.Value.(int) {
+					fail("ring", "Link back after Unlink(%d) on %d cells differs", k, n)
+					break
+				}
+			}
+		}
+	}
+	return calls
 }
